@@ -386,7 +386,9 @@ def generic_main(prop, tier: str, seed: int) -> int:
     cov = prop.coverage(agg, plan)
     per_hour = 3600.0 / max(explore_wall, 1e-6)
     cov.update({
-        "evaluations": agg.cases,
+        # a property whose case enumerates many executions (C23: fault plans) reports those
+        "evaluations": cov.get("evaluations_measured", agg.cases),
+        "cases": agg.cases,
         "distinct_counts": {k: len(v) for k, v in sorted(agg.sets.items())},
         "cases_per_phase": {k[len("cases_phase_"):]: v for k, v in sorted(agg.extra.items())
                             if k.startswith("cases_phase_")},
